@@ -9,6 +9,7 @@ import JSV.Proofs.RefineSpecMono
 import JSV.Proofs.RefineCheck
 import JSV.Proofs.Defined
 import JSV.Proofs.DefinedGuarded
+import JSV.Proofs.FloatMult
 namespace JSV.C01
 open JSV Go GoVal Refine
 
@@ -401,5 +402,106 @@ def danglingEnv : VEnv :=
 example : ranked danglingEnv = true := by decide
 example : closed danglingEnv = false := by decide
 example : Spec.evalFuel (specEnvOf danglingEnv) 20 [] 0 .null = none := by decide
+
+/-! ## `multipleOf`: the float64 quotient of the code against the exact division of the model
+
+The code computes `math.Modf(nf / m)` in float64 and asks for a zero fractional part; the model and the Spec ask whether the
+exact quotient is an integer.  Over an abstract rounding `fl` with (R1) `|fl x − x| ≤ |x| / 2^53` and (R2) `fl z = z` for
+integers `|z| ≤ 2^53` the two agree whenever the numerator of the exact quotient is below 2^53 — in particular on the
+generators' domain.  Proofs in `JSV/Proofs/FloatMult.lean`. -/
+
+open FloatMult in
+/-- **`multipleOf_float_exact`.**  `|n/m| < 2^k`, `den (n/m) ≤ 2^d`, `k + d ≤ 53` (the design document's `≤ 52` included):
+    the rounded quotient is an integer exactly when the exact quotient is. -/
+theorem multipleOf_float_exact (fl : Rat → Rat)
+    (R1 : ∀ x : Rat, (fl x - x).abs ≤ x.abs / 2 ^ 53)
+    (R2 : ∀ z : Int, z.natAbs ≤ 2 ^ 53 → fl z = z)
+    (n m : Rat) (k d : Nat) (hk : (n / m).abs < 2 ^ k) (hd : (n / m).den ≤ 2 ^ d) (hkd : k + d ≤ 53) :
+    (∃ z : Int, fl (n / m) = z) ↔ (∃ z : Int, n / m = z) :=
+  FloatMult.multipleOf_float_exact fl R1 R2 n m k d hk hd hkd
+
+open FloatMult in
+/-- the same with the one hypothesis that matters: the numerator of the quotient in lowest terms is below 2^53 -/
+theorem multipleOf_float_exact_num (fl : Rat → Rat) (h1 : R1 fl) (h2 : R2 fl)
+    (n m : Rat) (hq : (n / m).num.natAbs < 2 ^ 53) :
+    (∃ z : Int, fl (n / m) = z) ↔ (∃ z : Int, n / m = z) :=
+  float_int_iff fl h1 h2 (n / m) hq
+
+/-- the Spec and the model state `multipleOf` by the same exact division -/
+theorem multipleOk_eq_spec (q m : Rat) : Go.multipleOk q m = (m != 0 && (q / m).den == 1) := rfl
+
+open FloatMult in
+/-- **In the model's terms**: for a divisor `m ≠ 0` and a quotient with numerator below 2^53, the model's verdict
+    `multipleOk n m` is the verdict of the code, "`math.Modf (fl (n / m))` has fractional part 0". -/
+theorem multipleOk_float (fl : Rat → Rat) (h1 : R1 fl) (h2 : R2 fl)
+    (n m : Rat) (hm : m ≠ 0) (hq : (n / m).num.natAbs < 2 ^ 53) :
+    Go.multipleOk n m = decide (modfFrac (fl (n / m)) = 0) := by
+  have h := modf_verdict_exact fl h1 h2 (n / m) hq
+  have hm' : (m != 0) = true := by simpa using hm
+  unfold Go.multipleOk
+  rw [hm', Bool.true_and]
+  by_cases hd : (n / m).den = 1
+  · rw [decide_eq_true (h.2 hd)]; simpa using hd
+  · rw [decide_eq_false (fun h0 => hd (h.1 h0))]; simpa using hd
+
+open FloatMult in
+/-- … also when the code first converts the operands (`nf, _ := n.Float64()`): representable operands are unchanged -/
+theorem multipleOk_float_operands (fl : Rat → Rat) (h1 : R1 fl) (h2 : R2 fl)
+    (n m : Rat) (hn : fl n = n) (hmr : fl m = m) (hm : m ≠ 0) (hq : (n / m).num.natAbs < 2 ^ 53) :
+    Go.multipleOk n m = decide (modfFrac (fl (fl n / fl m)) = 0) := by
+  rw [hn, hmr]; exact multipleOk_float fl h1 h2 n m hm hq
+
+open FloatMult in
+/-- **On the generators' domain `D_mult`** (instance `a · 2^(e − e')`, divisor `b · 2^(f − f')`, `|a| < 2^20`, exponents
+    at most 10): the quotient's numerator is below 2^40, so the model's verdict is the float verdict. -/
+theorem multipleOk_float_dmult (fl : Rat → Rat) (h1 : R1 fl) (h2 : R2 fl)
+    (a b : Int) (e e' f f' : Nat) (ha : a.natAbs < 2 ^ 20) (he : e ≤ 10) (hf' : f' ≤ 10) (hb : dy b f f' ≠ 0) :
+    Go.multipleOk (dy a e e') (dy b f f') = decide (modfFrac (fl (dy a e e' / dy b f f')) = 0) :=
+  multipleOk_float fl h1 h2 _ _ hb (Nat.lt_trans (dmult_num_lt a b e e' f f' ha he hf') (by decide))
+
+/-- the bound cannot be relaxed: with numerator exactly 2^53 a rounding that satisfies (R1) and (R2) can turn a
+    non-integer quotient into an integer -/
+theorem multipleOf_float_exact_sharp :
+    ∃ fl : Rat → Rat, FloatMult.R1 fl ∧ FloatMult.R2 fl ∧
+      ∃ q : Rat, q.num.natAbs = 2 ^ 53 ∧ (∃ z : Int, fl q = z) ∧ ¬ (∃ z : Int, q = z) :=
+  FloatMult.float_int_iff_sharp
+
+/-! ### the hypotheses are satisfiable on the generators' pools; outside the domain the verdicts differ -/
+
+section
+open FloatMult
+variable (fl : Rat → Rat) (h1 : R1 fl) (h2 : R2 fl)
+include h1 h2
+
+/-- `7.5` is a multiple of `0.25` (`k = 5`, `d = 0`): whatever the rounding, the float quotient is an integer -/
+example : ∃ z : Int, fl ((15 / 2) / (1 / 4)) = z :=
+  (multipleOf_float_exact fl h1 h2 (15 / 2) (1 / 4) 5 0 (by decide +kernel) (by decide +kernel) (by decide)).2
+    ⟨30, by decide +kernel⟩
+/-- `1` is not a multiple of `3` (`k = 0`, `d = 2`: the denominator 3 is not a power of two, `3 ≤ 2^2`): whatever the
+    rounding, the float quotient is not an integer -/
+example : ¬ ∃ z : Int, fl (1 / 3) = z := fun h =>
+  absurd ((isInt_iff_den _).1 ((multipleOf_float_exact fl h1 h2 1 3 0 2 (by decide +kernel) (by decide +kernel)
+    (by decide)).1 h)) (by decide +kernel)
+/-- the same in the model's terms -/
+example : Go.multipleOk (15 / 2) (1 / 4) = true ∧ modfFrac (fl ((15 / 2) / (1 / 4))) = 0 := by
+  have h := multipleOk_float fl h1 h2 (15 / 2) (1 / 4) (by decide +kernel) (by decide +kernel)
+  have e : Go.multipleOk (15 / 2) (1 / 4) = true := by decide +kernel
+  rw [e] at h
+  exact ⟨e, of_decide_eq_true h.symm⟩
+example : Go.multipleOk 1 3 = false ∧ modfFrac (fl (1 / 3)) ≠ 0 := by
+  have h := multipleOk_float fl h1 h2 1 3 (by decide) (by decide +kernel)
+  have e : Go.multipleOk 1 3 = false := by decide +kernel
+  rw [e] at h
+  exact ⟨e, of_decide_eq_false h.symm⟩
+/-- as members of `D_mult`: `7.5 = 15 · 2^0 / 2^1`, `0.25 = 1 · 2^0 / 2^2` -/
+example : Go.multipleOk (dy 15 0 1) (dy 1 0 2) = decide (modfFrac (fl (dy 15 0 1 / dy 1 0 2)) = 0) :=
+  multipleOk_float_dmult fl h1 h2 15 1 0 1 0 2 (by decide) (by decide) (by decide) (by decide +kernel)
+end
+
+/-- **Outside the domain** (`2^55` is in the pool of large instance numbers, and a float64): float64 division, written out
+    as round-to-nearest-even on rationals (`FloatMult.rne53`), makes `2^55 / 3` the integer `12009599006321322` — the code
+    accepts `{"multipleOf": 3}` for `36028797018963968`, the model (exact division) rejects it.  This is why operations that
+    combine `multipleOf` with operands of magnitude ≥ 2^50 are outside the property. -/
+example : Go.multipleOk (2 ^ 55) 3 = false ∧ FloatMult.modfFrac (FloatMult.rne53 (2 ^ 55 / 3)) = 0 := by decide +kernel
 
 end JSV.C01
